@@ -128,6 +128,7 @@ class Engine:
             self.node = self.root
             self.ndec = 0
             self.nfold = 0
+            self.naux = 0
             self.vars = []
             self.bounds = {}
             self.excl = {}
